@@ -8,6 +8,7 @@
 //! here has no anti-replay window, so duplicating the plaintext is equivalent to duplicating the
 //! datagram).
 
+use super::coalesce::{self, RegroupLog, RegroupSpec};
 use super::fault::{Classify, Deliver, FaultLayer, Rule, Side, pump};
 use super::wire::{self, DClass, SClass};
 use bytes::Bytes;
@@ -85,6 +86,25 @@ impl PairSpec {
     }
 }
 
+/// Optional extras of `Pair::build_with` (kept out of `PairSpec` so that existing struct literals stay valid).
+#[derive(Clone, Default)]
+pub struct Extras {
+    /// re-group the datagrams sent by A / by B before they reach the fault layer (see `net::coalesce`)
+    pub regroup_a: Option<RegroupSpec>,
+    pub regroup_b: Option<RegroupSpec>,
+}
+
+/// A datagram with more than one DTLS record handed to an endpoint.
+#[derive(Clone, Debug)]
+pub struct MultiRx {
+    /// receiving side
+    pub to: Side,
+    pub first: DClass,
+    pub records: usize,
+    /// the receiving DTLS transport was Connected at that moment
+    pub to_connected: bool,
+}
+
 pub struct End {
     pub side: Side,
     pub conn: Arc<IceConn>,
@@ -105,6 +125,10 @@ pub struct Pair {
     pub b: End,
     pub dgram: Arc<Mutex<DgramLayer>>,
     pub sctp_layer: Arc<Mutex<SctpLayer>>,
+    /// every multi-record datagram delivered to an endpoint
+    pub multi_rx: Arc<Mutex<Vec<MultiRx>>>,
+    /// what the re-grouping stages did ([from A, from B])
+    pub regroup_log: [Arc<Mutex<RegroupLog>>; 2],
     tasks: Vec<JoinHandle<()>>,
 }
 
@@ -140,6 +164,10 @@ fn socket_reader(sock: Arc<UdpSocket>) -> (mpsc::UnboundedReceiver<Bytes>, JoinH
 
 impl Pair {
     pub async fn build(spec: PairSpec) -> anyhow::Result<Pair> {
+        Self::build_with(spec, Extras::default()).await
+    }
+
+    pub async fn build_with(spec: PairSpec, extras: Extras) -> anyhow::Result<Pair> {
         let (sock_a, sock_b, proxy_a, proxy_b) = (bind().await, bind().await, bind().await, bind().await);
         let (pa, pb) = (proxy_a.local_addr()?, proxy_b.local_addr()?);
         let (stx_a, srx_a) = watch::channel(Some(IceSocketWrapper::Udp(sock_a.clone())));
@@ -170,14 +198,34 @@ impl Pair {
 
         // datagram pumps
         let classify_d: Classify<DClass, ()> = Arc::new(|b: &[u8]| (wire::dtls_class(b), ()));
-        for (proxy, from, to_conn, src) in [
-            (proxy_a, Side::A, conn_b.clone(), pb),
-            (proxy_b, Side::B, conn_a.clone(), pa),
+        let multi_rx: Arc<Mutex<Vec<MultiRx>>> = Arc::new(Mutex::new(Vec::new()));
+        let regroup_log = [Arc::new(Mutex::new(RegroupLog::default())), Arc::new(Mutex::new(RegroupLog::default()))];
+        for (proxy, from, to_conn, to_dtls, src, regroup, rlog) in [
+            (proxy_a, Side::A, conn_b.clone(), dtls_b.clone(), pb, extras.regroup_a.clone(), regroup_log[0].clone()),
+            (proxy_b, Side::B, conn_a.clone(), dtls_a.clone(), pa, extras.regroup_b.clone(), regroup_log[1].clone()),
         ] {
             let (rx, h) = socket_reader(proxy);
             tasks.push(h);
+            let rx = match regroup {
+                Some(sp) => {
+                    let (rx2, h2) = coalesce::spawn(rx, sp, rlog);
+                    tasks.push(h2);
+                    rx2
+                }
+                None => rx,
+            };
+            let multi = multi_rx.clone();
             let deliver: Deliver = Arc::new(move |bytes: Bytes| {
                 let c = to_conn.clone();
+                let recs = wire::dtls_records(&bytes);
+                if recs.len() > 1 {
+                    multi.lock().push(MultiRx {
+                        to: from.other(),
+                        first: wire::dtls_class(&bytes),
+                        records: recs.len(),
+                        to_connected: matches!(to_dtls.get_state(), DtlsState::Connected(..)),
+                    });
+                }
                 Box::pin(async move {
                     let mut buf = Vec::new();
                     c.receive(bytes, src, &mut buf).await;
@@ -280,6 +328,8 @@ impl Pair {
             },
             dgram,
             sctp_layer,
+            multi_rx,
+            regroup_log,
             tasks,
         })
     }
